@@ -26,6 +26,40 @@ pub mod rt {
     pub fn slice_str(s: &'static str, a: usize, b: usize) -> Option<&'static str> { s.slice(a..b) }
     pub fn slice_bytes(s: &'static [u8], a: usize, b: usize) -> Option<&'static [u8]> { s.slice(a..b) }
 }
+// sources served by the blanket `impl<T: Deref> Source for T` (what String / Box<str> / Rc<str> / Vec<u8> users get):
+// a newtype that derefs to the symbolic source, and a hand-written Logos impl over it
+pub mod wrap_s {
+    use logos::{Lexer, Logos};
+    pub struct W(pub &'static str);
+    impl core::ops::Deref for W { type Target = str; fn deref(&self) -> &str { self.0 } }
+    #[derive(Debug, PartialEq, Clone)]
+    pub struct Tok;
+    impl<'s> Logos<'s> for Tok {
+        type Extras = (); type Source = W; type Error = ();
+        fn lex(_lex: &mut Lexer<'s, Self>) -> Option<Result<Self, ()>> { None }
+    }
+    pub fn mk(s: &'static str) -> W { W(s) }
+    pub fn h_new(w: &'static W) -> Lexer<'static, Tok> { Lexer::new(w) }
+    pub fn h_bump(lex: &mut Lexer<'static, Tok>, n: usize) { lex.bump(n) }
+    pub fn h_slice(lex: &Lexer<'static, Tok>) -> &'static str { lex.slice() }
+    pub fn h_remainder(lex: &Lexer<'static, Tok>) -> &'static str { lex.remainder() }
+}
+pub mod wrap_b {
+    use logos::{Lexer, Logos};
+    pub struct W(pub &'static [u8]);
+    impl core::ops::Deref for W { type Target = [u8]; fn deref(&self) -> &[u8] { self.0 } }
+    #[derive(Debug, PartialEq, Clone)]
+    pub struct Tok;
+    impl<'s> Logos<'s> for Tok {
+        type Extras = (); type Source = W; type Error = ();
+        fn lex(_lex: &mut Lexer<'s, Self>) -> Option<Result<Self, ()>> { None }
+    }
+    pub fn mk(s: &'static [u8]) -> W { W(s) }
+    pub fn h_new(w: &'static W) -> Lexer<'static, Tok> { Lexer::new(w) }
+    pub fn h_bump(lex: &mut Lexer<'static, Tok>, n: usize) { lex.bump(n) }
+    pub fn h_slice(lex: &Lexer<'static, Tok>) -> &'static [u8] { lex.slice() }
+    pub fn h_remainder(lex: &Lexer<'static, Tok>) -> &'static [u8] { lex.remainder() }
+}
 '''
 
 
@@ -72,6 +106,9 @@ def task_bump(pl):
     if is_str:
         ex.base += [lexcheck.as_b(boundary_sym(ex, ts, True)), lexcheck.as_b(boundary_sym(ex, te, True))]
     mod = f'corpus::{d.id}::'
+    wrap = pl.get('wrap', False)
+    if wrap:
+        mod = 'corpus::wrap_s::' if is_str else 'corpus::wrap_b::'
     failures = []
     stats = {'leaves': 0, 'return': 0, 'panic': 0}
     samples = []
@@ -81,7 +118,11 @@ def task_bump(pl):
             failures.append({'what': what, 'model': model or ex.model_for(cond if cond is not None else True)})
 
     def body(ex):
-        lex = Cell(ex.call_root(mod + 'h_new', [ex.source()]))
+        if wrap:
+            w = Cell(ex.call_root(mod + 'mk', [ex.source()]))
+            lex = Cell(ex.call_root(mod + 'h_new', [Ref(w, ())]))
+        else:
+            lex = Cell(ex.call_root(mod + 'h_new', [ex.source()]))
         names = set_lexer_state(ex, lex, ts, te)
         lref = Ref(lex, ())
         try:
@@ -143,7 +184,7 @@ def task_bump(pl):
             fail('unexpected panic outside bump: ' + str(leaf[1]))
 
     ex.explore(body, on_leaf)
-    return dict(id=d.id, cfg=pl['cfg'], profile='release' if pl['release'] else 'dev', failures=failures, stats=stats,
+    return dict(id=d.id, cfg=pl['cfg'], profile='release' if pl['release'] else 'dev', failures=failures, stats=stats, wrap=wrap,
                 engine=dict(ex.stats), fns=sorted(ex.fn_seen), builtins=sorted(ex.builtins_used), samples=samples, N=N)
 
 
@@ -161,6 +202,22 @@ pub struct StepB;
 impl<'s> Logos<'s> for StepB {
     type Extras = usize; type Source = [u8]; type Error = ();
     fn lex(lex: &mut Lexer<'s, Self>) -> Option<Result<Self, ()>> { let n = lex.extras; lex.bump(n); Some(Ok(StepB)) }
+}
+pub struct WS(pub &'static str);
+impl core::ops::Deref for WS { type Target = str; fn deref(&self) -> &str { self.0 } }
+pub struct WB(pub &'static [u8]);
+impl core::ops::Deref for WB { type Target = [u8]; fn deref(&self) -> &[u8] { self.0 } }
+#[derive(Debug, PartialEq, Clone)]
+pub struct StepWS;
+impl<'s> Logos<'s> for StepWS {
+    type Extras = usize; type Source = WS; type Error = ();
+    fn lex(lex: &mut Lexer<'s, Self>) -> Option<Result<Self, ()>> { let n = lex.extras; lex.bump(n); Some(Ok(StepWS)) }
+}
+#[derive(Debug, PartialEq, Clone)]
+pub struct StepWB;
+impl<'s> Logos<'s> for StepWB {
+    type Extras = usize; type Source = WB; type Error = ();
+    fn lex(lex: &mut Lexer<'s, Self>) -> Option<Result<Self, ()>> { let n = lex.extras; lex.bump(n); Some(Ok(StepWB)) }
 }
 fn report(kind: &str, base: usize, len: usize, p: usize, l: usize) {
     let inside = p >= base && p <= base + len && l <= len && p - base + l <= len;
@@ -188,6 +245,8 @@ fn main() {
     let data: &'static [u8] = Box::leak(data.into_boxed_slice());
     let ts: usize = a[3].parse().unwrap(); let te: usize = a[4].parse().unwrap(); let n: usize = a[5].parse().unwrap();
     if a[1] == "str" { drive!(StepS, std::str::from_utf8(data).unwrap(), ts, te, n, |s: &str| s.as_ptr()); }
+    else if a[1] == "wstr" { let w: &'static WS = Box::leak(Box::new(WS(std::str::from_utf8(data).unwrap()))); drive!(StepWS, w, ts, te, n, |s: &str| s.as_ptr()); }
+    else if a[1] == "wbytes" { let w: &'static WB = Box::leak(Box::new(WB(data))); drive!(StepWB, w, ts, te, n, |s: &[u8]| s.as_ptr()); }
     else { drive!(StepB, data, ts, te, n, |s: &[u8]| s.as_ptr()); }
 }
 '''
@@ -221,11 +280,11 @@ overflow-checks = false
     return os.path.join(tdir, 'release' if profile == 'release' else 'debug', 'bumpreplay')
 
 
-def replay_bump(binary, is_str, model):
+def replay_bump(binary, is_str, model, wrap=False):
     import subprocess
     v = model.get('vars', {})
     data = bytes(model['bytes'])
-    args = [binary, 'str' if is_str else 'bytes', data.hex(), str(v.get('token_start', 0)), str(v.get('token_end', 0)),
+    args = [binary, ('w' if wrap else '') + ('str' if is_str else 'bytes'), data.hex(), str(v.get('token_start', 0)), str(v.get('token_end', 0)),
             str(v.get('n', 0))]
     r = subprocess.run(args, capture_output=True, text=True, timeout=30)
     out = r.stdout
@@ -242,11 +301,14 @@ def c15(tier, seed):
     payloads = []
     build_s = {}
     for prof in profiles:
-        progs, times = pipeline.build_programs('rt-C15', defs, cfgs, prof)
+        progs, times = pipeline.build_programs('rt-C15', defs, cfgs, prof, extra=RT_EXTRA)
         build_s.update({f'{c}@{prof}': t for c, t in times.items()})
         for c in cfgs:
             for d in defs:
                 payloads.append(dict(key=f'{d.id}/{c}/{prof}', d=d, mir=progs[c], cfg=c, release=(prof == 'release'), N=N))
+                # the same obligations on a source that reaches Source through the blanket Deref impl
+                payloads.append(dict(key=f'deref-wrapper-{"str" if d.utf8 else "bytes"}/{c}/{prof}', d=d, mir=progs[c], cfg=c,
+                                     release=(prof == 'release'), N=N, wrap=True))
     results = pipeline.run_tasks(task_bump, payloads)
     rc = 0
     tot = dict(leaves=0, queries=0, solver_s=0.0)
@@ -274,7 +336,7 @@ def c15(tier, seed):
             seen.add(sig)
             d = [x for x in defs if x.id == r['id']][0]
             binary = build_bump_replay(r['cfg'], r['profile'])
-            bad, out, args = replay_bump(binary, d.utf8, f['model'])
+            bad, out, args = replay_bump(binary, d.utf8, f['model'], wrap=r.get('wrap', False))
             returned = 'bump returned' in out
             # native confirmation: either a slice outside the source is observable, or bump returned on an invalid target
             reproduced = bad or ('returned although' in f['what'] and returned) or ('panicked although' in f['what'] and not returned)
@@ -309,7 +371,8 @@ def c15(tier, seed):
         'samples': samples[:10], 'obligations': tot['queries'], 'discharged': tot['queries'],
         'checker_cmd': f'./check C15 --tier {tier}', 'trusted_base': ['z3', 'rustc MIR export', 'core builtins: ' + ', '.join(sorted(stubs))],
         'bounds': {'N_bytes_max': N, 'n': 'all 2^64 values', 'positions': 'all token_start <= token_end <= len',
-                   'profiles': profiles, 'configurations': cfgs, 'outside': 'sources longer than N bytes; custom Source impls'},
+                   'profiles': profiles, 'configurations': cfgs, 'sources': ['str', '[u8]', 'newtype wrappers of both through the blanket `impl<T: Deref> Source for T`'],
+                   'outside': 'sources longer than N bytes; Source impls written outside logos'},
         'cases': per, 'queries_discharged': tot['queries'], 'solver_s': round(tot['solver_s'], 2),
         'functions_encoded': sorted(fns), 'stubs': sorted(stubs), 'failures_confirmed_natively': confirmed, 'build_s': build_s,
     }
